@@ -34,6 +34,7 @@ class State:
     pair_counts = {}   # (state,event) -> count   (live conformance coverage)
     framed = []        # (seq, assoc_id, bytes) every byte string handed to DUL._decode_pdu
     dul_events = []    # (seq, assoc_id, event) every event put on a DUL event queue by _read_pdu_data
+    decoded = []       # (seq, assoc_id, pdu_object, event, bytes) every successful DUL._decode_pdu
 
 
 def _next():
@@ -53,6 +54,7 @@ def reset():
         State.pair_counts = {}
         State.framed = []
         State.dul_events = []
+        State.decoded = []
 
 
 class SockProxy:
@@ -208,7 +210,10 @@ def install():
     def _decode_pdu(self, bytestream):
         with _LOCK:
             State.framed.append((_next(), id(self.assoc), bytes(bytestream)))
-        return orig_decode(self, bytestream)
+        res = orig_decode(self, bytestream)
+        with _LOCK:
+            State.decoded.append((_next(), id(self.assoc), res[0], res[1], bytes(bytestream)))
+        return res
 
     _dul.DULServiceProvider._decode_pdu = _decode_pdu
 
